@@ -12,7 +12,7 @@ MATCHER_NOTE = ("Trusted: Lean kernel; axioms propext/Classical.choice/Quot.soun
                 "size-limit shapes, every case on a fresh, a used and a poisoned matcher). The optimal matcher is modelled twice: as the naive two-matrix recurrence (optimalDP) and at code level "
                 "(Model/OptImpl.lean: one score row shifted by the row offsets, UNMATCHED sentinels, two-bit back-pointer segments, traceback; loops transcribed by hand zip for zip, u16/u8 arithmetic "
                 "as Nat with narrowing casts as mod); the two are proved equal for every input and every prior content of the scratch memory (Props/C04_Compressed.lean), and the code-level model is "
-                "run against the implementation on every matrix-path case. std Unicode predicates and memchr/memmem as parameters.")
+                "run against the implementation on every matrix-path case (results and, through a digest hook, the internal state it leaves behind). std Unicode predicates and memchr/memmem as parameters.")
 
 CLAIMS = {
     "C01": dict(
@@ -76,7 +76,8 @@ CLAIMS = {
              "'no cell', the two column loops of score_row, populate_matrix, max_by_key over the last row, two-bit back-pointer cells in per-row segments split off the end, the loop of "
              "reconstruct_optimal_path; cell functions generated from the source - returns exactly the score and alignment of the recurrence, for every window, needle of at least two characters, "
              "configuration and every prior content of the score row and the back-pointer cells (optimalImpl_eq_optimalDP; C04_compressed_matrix_correct: valid witness, score = scheme, "
-             "at most the maximum over all alignments). The code-level model is tied to the implementation by the translator (cell functions) and by running it on every matrix-path case. "
+             "at most the maximum over all alignments). The code-level model is tied to the implementation by the translator (cell functions) and by running it on every matrix-path case: result, and - through a "
+             "cfg-gated digest hook - the row offsets, the last score row and every back-pointer cell the real matcher (fresh, used, poisoned) leaves behind must equal the model's. "
              "Further theorems: no bonus exceeds the value the early exit waits for (all presets), a candidate scan keeps the leftmost maximum and stops only at the "
              "maximum; the optimal matcher's recurrence never scores above the maximum over all alignments (C04_upper_bound: its value is the scheme's value of an alignment the "
              "brute-force specification enumerates; every haystack, needle, window, prefix preference off). For a one-character needle the ASCII matcher returns exactly the maximum over all alignments, at the leftmost best-placed occurrence "
@@ -330,7 +331,7 @@ def main():
     print("MANIFEST.json written:", len(checks), "checks,", len(m["not_applicable"]), "not applicable")
 
 
-HOOK_COMMITS = ["83be2c1", "70f7560", "1c72289", "55bd267", "3b24678", "7ff75e2", "14ea588"]
+HOOK_COMMITS = ["83be2c1", "70f7560", "1c72289", "55bd267", "3b24678", "7ff75e2", "14ea588", "8a8fa86", "57f2bf8"]
 
 if __name__ == "__main__":
     main()
